@@ -172,7 +172,7 @@ Theorem contract_under_stack : forall E O A0 I Opt Enc C
         would be by the same stack in the same state; returned observation: the next episode's first observation *)
      exists obs2 ri2, e_reset e1 None None = (e', (obs2, ri2)) /\ ri' = Some ri2 /\
        g_term g = Some (g_obs (run_stack s (gordinary (base_gout enc o) (enc obs)))) /\
-       g_obs g = g_obs (run_stack s (base_gout enc o)) /\ so_obs o = obs2) /\
+       g_obs g = g_obs (run_stack s (mk_gout (enc obs2) (inject_Z r / 4)%Q true (trunc && negb term) (Some (enc obs))))) /\
   ((term || trunc) = false -> g_term g = None /\ so_obs o = obs /\ ri' = ri).
 Proof.
   intros E O A0 I Opt Enc C e_step e_reset enc s e ri a e1 obs r term trunc info e' ri' o c G Hs H g.
@@ -181,10 +181,11 @@ Proof.
   unfold g. rewrite PD, PT, PR. cbn [base_gout g_done g_tl g_rew]. rewrite D, T, R.
   split; [reflexivity|]. split; [reflexivity|]. split; [reflexivity|]. split.
   - intros Hd. destruct (Y Hd) as (obs2 & ri2 & Er & Eo & Et & Eri & _).
-    exists obs2, ri2. split; [exact Er|]. split; [exact Eri|]. split; [|split; [reflexivity|exact Eo]].
-    apply stack_terminal_transform; [exact G| |].
-    + cbn. rewrite D. exact Hd.
-    + cbn. rewrite Et. reflexivity.
+    exists obs2, ri2. split; [exact Er|]. split; [exact Eri|]. split.
+    + apply stack_terminal_transform; [exact G| |].
+      * cbn. rewrite D. exact Hd.
+      * cbn. rewrite Et. reflexivity.
+    + f_equal. f_equal. unfold base_gout. rewrite Eo, R, D, T, Et, Hd. reflexivity.
   - intros Hd. destruct (N Hd) as (_ & Eo & Et & Eri & _). split; [|split; [exact Eo|exact Eri]].
     apply stack_no_terminal; [exact G|]. cbn. rewrite Et. reflexivity.
 Qed.
